@@ -9,3 +9,7 @@ add("C03", "SEQ", "model_checking", "explicit-state BFS over request histories o
 add("C18", "SEQ", "model_checking", "explicit-state BFS over operation sequences on the real types.Index, to closure",
     "All sequences of AddDesc (untagged, tag, referrer-subject; with and without the children option), RmDesc (digest, digest+tag, tag alone, subject alone) and AddChildren over 2 (quick) / 3 (thorough) digests, 2 tags and 2 subjects are explored breadth-first on the real type until the exact dump (entry order preserved) is closed; in every distinct state GetDesc, GetByAnnotation and Copy are checked against the invariants of the statement and a tag map model.",
     TRUSTED, "DESIGN.md section 4 C18")
+
+add("C07", "SEQ", "model_checking", "explicit-state BFS over request histories on the implementation (bounded depth), model comparison in every state",
+    "All histories up to the stated depth of artifact pushes (by digest, by tag, tag overwrite), deletes by tag and digest, subject delete / re-push, restart and a cache-warming filtered read are explored on both stores and several Referrer.Limit values; in every distinct state, for every subject and filter, the union of the Link chain (each request issued twice) is compared with the model, plus page sizes, OCI-Filters-Applied and continuation links replayed against other subjects.",
+    TRUSTED, "DESIGN.md section 4 C07")
